@@ -10,7 +10,7 @@ WellA(x) == /\ (~x.spec => (x.type = "" /\ x.ttl = -1 /\ x.tmpl = "absent"))
             /\ (x.tmpl = "present" => x.pod # "absent")                 \* taskTemplate is required when a template is given
             /\ (x.op = "UPDATE" => x.spec)
 FamB == {[fam |-> "B", cfgname |-> cn, policy |-> po, optval |-> ov, subst |-> su, substctx |-> sc, fin |-> fin, label |-> lb, owntmpl |-> ot, otheruid |-> ou] :
-            cn \in {"missing", "jc1"}, po \in {"", "Allow", "Enqueue"}, ov \in Bools, su \in Bools, sc \in Bools, fin \in {"none", "x"}, lb \in Bools, ot \in Bools, ou \in Bools}
+            cn \in {"missing", "jc1"}, po \in {"", "sa", "Allow", "Enqueue"}, ov \in Bools, su \in Bools, sc \in Bools, fin \in {"none", "x"}, lb \in Bools, ot \in Bools, ou \in Bools}
 FamC == {[fam |-> "C", op |-> op, old |-> o, new |-> n, lu |-> lu] : op \in {"CREATE", "UPDATE"}, o \in {"none", "s1", "s2", "s1off"}, n \in {"none", "s1", "s2", "s1off"}, lu \in {"unset", "past", "future"}}
 WellC(x) == (x.op = "CREATE" => x.old = "none") /\ (x.new = "none" => x.lu = "unset")
 FamU == {[fam |-> "U", field |-> f, changed |-> ch, started |-> st, killpassed |-> kp, how |-> how] :
@@ -30,6 +30,8 @@ FamP == {[fam |-> "P", expr |-> e, tz |-> tz, fmt |-> f, hash |-> h] : e \in Exp
                  es \in {<<"0 0 1 1 * 2020", "*/5 * * * *">>, <<"*/5 * * * *", "0 0 1 1 * 2020">>, <<"* * * * *", "not cron">>, <<"H * * * *", "H/2 * * * *">>, <<"0 0 31 2 *">>, <<>>},
                  f \in {"standard", "quartz"}, h \in Bools}
         \cup {[fam |-> "P", expr |-> "* * * * *", exprs |-> <<"*/5 * * * *">>, tz |-> "UTC", fmt |-> "standard", hash |-> TRUE]}
+        \* the same schedules submitted as an UPDATE of a JobConfig that was created with a valid schedule
+        \cup {[fam |-> "P", expr |-> e, tz |-> tz, fmt |-> "standard", hash |-> TRUE, op |-> "UPDATE"] : e \in Exprs, tz \in TZs}
 FamD == {[fam |-> "D", pt1 |-> a, pt2 |-> b] : a \in {-1, 0, 5}, b \in {-1, 0, 9}}
 Cases == {x \in FamA : WellA(x)} \cup FamP \cup FamD \cup FamB \cup {x \in FamC : WellC(x)} \cup {x \in FamU : WellU(x)}
 Init == c \in Cases
